@@ -30,8 +30,11 @@ MANIFEST = {
             "schema-directed conversion) applied to xml_print gives back exactly the selected part of every canonical forest, default "
             "flags cleared (a document does not carry them), for side tables in which a prefix stands for one namespace; JSON: "
             "json_print = transcription of printer_json.c WITH its state (level, level_printed, open arrays, first_leaflist), "
-            "json_doc = rendering of the RFC 7951 value; C01_json_doc_roundtrip_partial: json_parse (json_doc f) = f without flags; "
-            "the link json_print_all = json_doc is checked by T2 on every case, not proved. Tie: libyang's XML and JSON output "
+            "json_doc = rendering of the RFC 7951 value; C01_json_print_is_rfc7951: with every node selected the state machine "
+            "prints exactly json_doc on canonical forests (pre-order sids); C01_json_doc_roundtrip: json_parse (json_print_all f) "
+            "= f without flags; for other selections only the rendering of the selected part is proved to read back "
+            "(C01_json_doc_roundtrip_sel_partial) - that libyang prints it in explicit mode is checked by T2 on every case, and it "
+            "is false in trim mode (finding json-trim-leaflist-meta). Tie: libyang's XML and JSON output "
             "(explicit, report-all, trim, keep-empty; shrink) for generated modules / instances with metadata and empty-typed "
             "leaf-lists is byte-identical to the extracted printers, and the extracted readers applied to LIBYANG's bytes return "
             "libyang's dump; the executable hypotheses of the theorems are evaluated on every case. Whole documents for what the "
